@@ -202,6 +202,24 @@ Theorem C13_fmt_parse_uniform : forall y m d,
 Proof. exact fmt_parse_uniform. Qed.
 Print Assumptions C13_fmt_parse_uniform.
 
+(* RawDate::parse reads back both renderings of any raw date with in-range fields
+   (wide_ok: zero-padded only when there is no hour or the hour is >= 10) *)
+Theorem C13_fmt_parse_raw : forall y m d h wide,
+  in_i16 y = true -> 1 <= m <= 12 -> 1 <= d <= 31 -> 0 <= h <= 24 -> wide_ok wide h = true ->
+  exists r, raw_from_ymdh_opt y m d h = Some r /\ raw_parse (game_fmt wide r) = Ok (Some r).
+Proof. exact fmt_parse_raw. Qed.
+Print Assumptions C13_fmt_parse_raw.
+
+(* the ISO-8601 rendering shows the same components: reading its numerals back with to_i64_t gives
+   year, month, day, and (after 'T') the hour as 0..23 *)
+Theorem C13_iso_components : forall r y m d h,
+  has_fields r y m d h -> in_i16 y = true -> 1 <= m <= 12 -> 1 <= d <= 31 -> 0 <= h <= 24 ->
+  exists r1 r2 T,
+    to_i64_t (iso_fmt r) = Ok (y, DASH :: r1) /\ to_i64_t r1 = Ok (m, DASH :: r2) /\ to_i64_t r2 = Ok (d, T) /\
+    ((h = 0 /\ T = []) \/ (1 <= h /\ exists T', T = 84%N :: T' /\ to_i64_t T' = Ok (h - 1, []))).
+Proof. exact iso_components. Qed.
+Print Assumptions C13_iso_components.
+
 Example C13_fmt_nonvacuous :
   game_fmt false (mkraw 1444 (11 * 4096 + 11 * 128)) = [49; 52; 52; 52; 46; 49; 49; 46; 49; 49]%N /\
   game_fmt true (mkraw (-17) (1 * 4096 + 2 * 128)) = [45; 49; 55; 46; 48; 49; 46; 48; 50]%N /\
